@@ -2,7 +2,7 @@
 """Adds to every seeded/<id>/meta.json what the framework owner ran: the confirmation in a scratch
 worktree (confirm.log) and the outcome of the quick checks with the patch applied to /repo (detected.txt)."""
 import json, os, glob, re
-for d in sorted(glob.glob('/verif/seeded/C*-*')):
+for d in sorted(glob.glob('/verif/seeded/[CB]*-*')):
     mp = os.path.join(d, 'meta.json')
     if not os.path.exists(mp):
         continue
